@@ -160,6 +160,14 @@ Definition sl_step (top : bool) (acc : siglist) (s : tsig) : siglist :=
 Definition sl_finish (acc : siglist) : tsig :=
   match acc with SLUnit => TLeaf CUnit | SLOne s => s | SLStruct l => TStruct Dynamic l end.
 
+(* length r = length inp, without building the numbers *)
+Fixpoint same_len (a b : bytes) : bool :=
+  match a, b with
+  | [], [] => true
+  | _ :: a', _ :: b' => same_len a' b'
+  | _, _ => false
+  end.
+
 (* fn parse_signature = alt((simple_type, dict, array, structure, #[gvariant] maybe, b'h')),
    fn many = repeat(1.., parse_signature) [.fold(…)],  rep_loop = the loop of (fold_)repeat1_ after the first element *)
 Fixpoint parse_signature (fuel : nat) (co gv : bool) (inp : bytes) {struct fuel} : pres tsig :=
@@ -198,7 +206,7 @@ with rep_loop (fuel : nat) (co gv : bool) (inp : bytes) {struct fuel} : pres (li
       | PFail => POk [] inp                                  (* backtrack: input.reset(&start); break *)
       | PAbn x => PAbn x
       | POk t r =>
-          if Nat.eqb (length r) (length inp) then PAbn Assert   (* infinite loop check *)
+          if same_len r inp then PAbn Assert                    (* infinite loop check: input.eof_offset() == len *)
           else match rep_loop f co gv r with
                | POk ts r' => POk (t :: ts) r'
                | PFail => PFail
@@ -296,8 +304,11 @@ Definition slice (s : bytes) (a b : nat) : res unit bytes :=
 Definition split_at (s : bytes) (mid : nat) : res unit (bytes * bytes) :=
   if Nat.leb mid (length s) && is_char_boundary s mid then Ok (firstn mid s, skipn mid s) else Panic PSlice.
 
-Definition ends_with1 (c : byte) (s : bytes) : bool :=
-  match rev s with x :: _ => beq x c | [] => false end.
+Fixpoint ends_with1 (c : byte) (s : bytes) : bool :=
+  match s with
+  | [] => false
+  | x :: r => match r with [] => beq x c | _ :: _ => ends_with1 c r end
+  end.
 
 Fixpoint eq_str (t : tsig) (other : bytes) : res unit bool :=
   match t with
@@ -343,25 +354,26 @@ Fixpoint eq_str (t : tsig) (other : bytes) : res unit bool :=
    (rest on success, deepest chain of nested parse_signature activations). Each activation holds a bounded
    number of native frames (alt, tuple, delimited, repeat, fold closures), so the native stack needed is
    proportional to this number; when it exceeds the thread's stack the process is aborted (SIGSEGV). *)
-Definition dmax (a b : nat) : nat := Nat.max a b.
+Definition dmax (a b : N) : N := N.max a b.
+Definition dS (a : N) : N := N.succ a.
 
-Fixpoint depth_ps (fuel : nat) (gv : bool) (inp : bytes) {struct fuel} : option bytes * nat :=
+Fixpoint depth_ps (fuel : nat) (gv : bool) (inp : bytes) {struct fuel} : option bytes * N :=
   match fuel with
-  | O => (None, 0)
+  | O => (None, 0%N)
   | S f =>
       match simple_type inp with
-      | POk _ r => (Some r, 1)
+      | POk _ r => (Some r, 1%N)
       | _ =>
         (* dict *)
         let d_dict :=
-          match lit1 "a" inp with None => (None, 1) | Some r0 =>
-          match lit1 "{" r0 with None => (None, 1) | Some r1 =>
+          match lit1 "a" inp with None => (None, 1%N) | Some r0 =>
+          match lit1 "{" r0 with None => (None, 1%N) | Some r1 =>
           match depth_ps f gv r1 with
-          | (None, d1) => (None, S d1)
+          | (None, d1) => (None, dS d1)
           | (Some r2, d1) =>
               match depth_ps f gv r2 with
-              | (None, d2) => (None, S (dmax d1 d2))
-              | (Some r3, d2) => (lit1 "}" r3, S (dmax d1 d2))
+              | (None, d2) => (None, dS (dmax d1 d2))
+              | (Some r3, d2) => (lit1 "}" r3, dS (dmax d1 d2))
               end
           end end end in
         match d_dict with
@@ -369,17 +381,17 @@ Fixpoint depth_ps (fuel : nat) (gv : bool) (inp : bytes) {struct fuel} : option 
         | (None, dd) =>
           (* array *)
           let d_arr :=
-            match lit1 "a" inp with None => (None, 1) | Some r0 =>
-            match depth_ps f gv r0 with (o, d1) => (o, S d1) end end in
+            match lit1 "a" inp with None => (None, 1%N) | Some r0 =>
+            match depth_ps f gv r0 with (o, d1) => (o, dS d1) end end in
           match d_arr with
           | (Some r, d) => (Some r, dmax dd d)
           | (None, da) =>
             (* structure *)
             let d_st :=
-              match lit1 "(" inp with None => (None, 1) | Some r0 =>
+              match lit1 "(" inp with None => (None, 1%N) | Some r0 =>
               match depth_many f gv r0 with
-              | (None, d1) => (None, S d1)
-              | (Some r1, d1) => (lit1 ")" r1, S d1)
+              | (None, d1) => (None, dS d1)
+              | (Some r1, d1) => (lit1 ")" r1, dS d1)
               end end in
             match d_st with
             | (Some r, d) => (Some r, dmax (dmax dd da) d)
@@ -387,9 +399,9 @@ Fixpoint depth_ps (fuel : nat) (gv : bool) (inp : bytes) {struct fuel} : option 
               (* maybe *)
               let d_mb :=
                 if gv then
-                  match lit1 "m" inp with None => (None, 1) | Some r0 =>
-                  match depth_ps f gv r0 with (o, d1) => (o, S d1) end end
-                else (None, 1) in
+                  match lit1 "m" inp with None => (None, 1%N) | Some r0 =>
+                  match depth_ps f gv r0 with (o, d1) => (o, dS d1) end end
+                else (None, 1%N) in
               match d_mb with
               | (Some r, d) => (Some r, dmax (dmax (dmax dd da) ds) d)
               | (None, dm) => (lit1 "h" inp, dmax (dmax (dmax dd da) ds) dm)
@@ -399,18 +411,18 @@ Fixpoint depth_ps (fuel : nat) (gv : bool) (inp : bytes) {struct fuel} : option 
         end
       end
   end
-with depth_many (fuel : nat) (gv : bool) (inp : bytes) {struct fuel} : option bytes * nat :=
+with depth_many (fuel : nat) (gv : bool) (inp : bytes) {struct fuel} : option bytes * N :=
   match fuel with
-  | O => (None, 0)
+  | O => (None, 0%N)
   | S f =>
       match depth_ps f gv inp with
       | (None, d) => (None, d)
       | (Some r, d) => match depth_loop f gv r with (o, d') => (o, dmax d d') end
       end
   end
-with depth_loop (fuel : nat) (gv : bool) (inp : bytes) {struct fuel} : option bytes * nat :=
+with depth_loop (fuel : nat) (gv : bool) (inp : bytes) {struct fuel} : option bytes * N :=
   match fuel with
-  | O => (None, 0)
+  | O => (None, 0%N)
   | S f =>
       match depth_ps f gv inp with
       | (None, d) => (Some inp, d)
@@ -419,5 +431,5 @@ with depth_loop (fuel : nat) (gv : bool) (inp : bytes) {struct fuel} : option by
   end.
 
 (* deepest chain of parse_signature activations while parsing [s] *)
-Definition stack_used (gv : bool) (s : bytes) : nat :=
-  match s with [] => 0 | _ => snd (depth_many (parse_fuel s) gv s) end.
+Definition stack_used (gv : bool) (s : bytes) : N :=
+  match s with [] => 0%N | _ => snd (depth_many (parse_fuel s) gv s) end.
